@@ -634,8 +634,10 @@ def run(chk: Check):
             if f["path"] == "send_message":
                 chk.spec_failure("stamp:not-the-sent-objects-hash", desc, rep)
             elif f["rev"] != last and m["signal_differs"]:
-                # send_signal takes a bare id: with two different definitions registered under it the last import wins
-                chk.spec_failure("stamp:send_signal-id-defined-twice-last-import-wins", desc, rep)
+                # send_signal takes a bare id.  With two DIFFERENT definitions registered under that id in one process the
+                # call does not say which one is meant (the registry keeps the last import): not a statement of C13,
+                # which is about the definition of what is sent.  Counted, not judged.
+                chk.cov["send_signal_ambiguous_id_frames"] = chk.cov.get("send_signal_ambiguous_id_frames", 0) + 1
             else:
                 chk.spec_failure("stamp:send_signal-wrong-hash", desc, rep)
 
